@@ -1,21 +1,38 @@
 """Shared library of the integrator property checks C02, C03, C06, C07.
 
-Everything is described by JSON-ready *spec dicts* (floats as ``float.hex()`` strings) so that a
-failing input can be written to a replay file and rebuilt exactly:
+Everything is described by JSON-ready *spec dicts* (every float a ``float.hex()`` string; ``enc`` /
+``dec`` / ``arr`` / ``fl`` convert) so that a failing input can be written to a replay file and rebuilt
+exactly:
 
-    sysw  = build_system(sys_spec)          # SysW: .system (real mici system), .target, .constr, ...
+    sysw  = build_system(sys_spec)          # SysW: .system (real mici system) .target .constr .M .mpoly
     integ = build_integrator(sysw, integ_spec)
     state = build_state(state_spec)         # mici.states.ChainState(pos, mom, dir)
 
-Random specs (all randomness from the numpy Generator passed in, inputs small dyadic rationals):
+sys_spec   {"kind": <SYSTEM_KINDS>, "dim": d, "aux": bool (derivative functions also return the values),
+            "target": {"kind": quadratic|quartic|cubic|banana, "dim", "A"|"b"|"c"|"e"|"a"|"beta"},
+            "metric": {"kind": <METRIC_KINDS>, "dim", "diag"|"M"|"s"|"L"|"Q","eigval"|"blocks"}   (tractable kinds),
+            "constr": {"kind": <CONSTRAINT_KINDS>, "dim", "r2"|"B"|"a","b"|"r"|"alpha"}, "hausdorff": bool (constrained),
+            "riem":   {"c0","alpha"| "a","b" | "M0","alpha","beta" | "L0","alpha","beta" | "softabs_coeff"}}
+integ_spec {"kind": <INTEGRATOR_KINDS>, "step_size": hex, "free": [hex], "initial_h1": bool   (symcomp),
+            "solver": direct|steffensen, "solver_kwargs": {...}                               (implicit_*),
+            "n_inner": k, "proj": newton|quasi_newton|newton_line_search, "proj_kwargs": {...}  (constrained_leapfrog),
+            "reverse_check_tol": hex (optional)}
+state_spec {"pos": [hex], "mom": [hex], "dir": +1|-1}
 
-    random_system_spec(rng, kind, dim=None, ...)   kind in SYSTEM_KINDS
-    random_integrator_spec(rng, kind, sysw, ...)   kind in INTEGRATOR_KINDS
-    random_state_spec(rng, sysw)                   on the manifold / in the cotangent space if constrained
+Random specs (all randomness from the numpy Generator passed in; inputs are small dyadic rationals):
+
+    random_system_spec(rng, kind, dim=None, target_kind=None, metric_kind=None, constraint_kind=None, hausdorff=None)
+    random_integrator_spec(rng, kind, step_size, tight=False, n_free=None)    tight: solver tolerances 1e-13
+    random_state_spec(rng, sysw, pos_scale=1, mom_scale=1, dir_=None)         on T*M if constrained
+    dyadic_step(sysw, factor)                                                 2^k <= factor / frequency scale
 
 All user functions handed to mici (targets, constraints, position dependent metrics) are sparse
-polynomials (:class:`PolyTensor`) with exactly differentiated derivatives, so the exact rational
-model of a case is available through ``PolyTensor.terms()``.
+polynomials (:class:`PolyTensor`, exact derivatives by ``.jac()``), so the exact rational model of a case
+is available through ``PolyTensor.terms()`` / ``.exact(q)`` (``sysw.target.poly``, ``sysw.constr.poly``,
+``sysw.mpoly``).  Independent references: ``metric_dense(spec)``, ``SysW.vector_field`` /
+``reference_flow`` (DOP853), ``SysW.tangent_basis`` / ``retract_to_bundle`` (constrained), ``expected_coefficients``.
+Oracle helpers: ``snapshot`` / ``same_snapshot`` / ``cache_values_correct``, ``step_map``, ``fd_jacobian``,
+``omega``, ``coefficient_failures``, ``with_timeout``, ``describe``, ``selfcheck``.
 """
 from __future__ import annotations
 
@@ -25,6 +42,8 @@ from fractions import Fraction
 import numpy as np
 
 from . import common
+
+STATS: dict = __import__("collections").Counter()  # library level counters (dumped into ctx.count by the harnesses)
 
 # --------------------------------------------------------------------------------------
 # serialisation: floats <-> float.hex()
@@ -294,7 +313,7 @@ class Target:
 # metrics of the constant-metric systems
 
 METRIC_KINDS = (
-    "none", "diag", "dense", "identity", "scaled", "diag_obj", "dense_obj", "chol", "eig", "block",
+    "none", "diag", "dense", "identity", "scaled", "scaled_implicit", "diag_obj", "dense_obj", "chol", "eig", "block",
 )
 
 
@@ -307,7 +326,7 @@ def random_metric_spec(rng, d, kind=None, kinds=METRIC_KINDS):
         spec["diag"] = enc(dy(rng, (d,), 4, 0.25, 3.0))
     elif kind in ("dense", "dense_obj"):
         spec["M"] = enc(dy_spd(rng, d))
-    elif kind == "scaled":
+    elif kind in ("scaled", "scaled_implicit"):
         spec["s"] = enc(dy(rng, (), 4, 0.25, 3.0))
     elif kind == "chol":
         spec["L"] = enc(dy_lower(rng, d))
@@ -336,6 +355,8 @@ def metric_arg(spec):
         return mm.IdentityMatrix(d)
     if kind == "scaled":
         return mm.PositiveScaledIdentityMatrix(fl(spec["s"]), d)
+    if kind == "scaled_implicit":  # implicitly sized scaled identity (size=None)
+        return mm.PositiveScaledIdentityMatrix(fl(spec["s"]))
     if kind == "diag_obj":
         return mm.PositiveDiagonalMatrix(arr(spec["diag"]))
     if kind == "dense_obj":
@@ -360,7 +381,7 @@ def metric_dense(spec) -> np.ndarray:
         return np.diag(arr(spec["diag"]))
     if kind in ("dense", "dense_obj"):
         return arr(spec["M"])
-    if kind == "scaled":
+    if kind in ("scaled", "scaled_implicit"):
         return fl(spec["s"]) * np.eye(d)
     if kind == "chol":
         L = arr(spec["L"])
@@ -383,21 +404,26 @@ def metric_dense(spec) -> np.ndarray:
 CONSTRAINT_KINDS = ("sphere", "ellipsoid", "linear", "two", "quartic", "graph")
 
 
-def random_constraint_spec(rng, d, kind=None, kinds=CONSTRAINT_KINDS):
+def random_constraint_spec(rng, d, kind=None, kinds=CONSTRAINT_KINDS, r2_range=(0.5, 4.0)):
     kind = kind or str(rng.choice(list(kinds)))
     if kind == "two" and d < 3:
         kind = "sphere"
     spec = {"kind": kind, "dim": d}
     if kind in ("sphere", "two"):
-        spec["r2"] = enc(dy(rng, (), 4, 0.5, 4.0))
+        spec["r2"] = enc(dy(rng, (), 4, *r2_range))
     if kind == "ellipsoid":
         spec["B"] = enc(dy_spd(rng, d))
     if kind in ("linear", "two"):
-        a = dy(rng, (d,), 4, -1.0, 1.0)
-        if not np.any(a):
-            a[0] = 1.0
+        while True:
+            a = dy(rng, (d,), 4, -1.0, 1.0)
+            b = dy(rng, (), 8, -0.25, 0.25)
+            if not np.any(a):
+                continue
+            # sphere and plane must intersect in a circle of decent radius
+            if kind == "linear" or b * b <= 0.25 * fl(spec["r2"]) * float(a @ a):
+                break
         spec["a"] = enc(a)
-        spec["b"] = enc(dy(rng, (), 8, -0.25, 0.25))
+        spec["b"] = enc(b)
     if kind == "quartic":
         spec["r"] = enc(dy(rng, (), 4, 0.5, 3.0))
     if kind == "graph":
@@ -572,7 +598,7 @@ TRACTABLE_KINDS = UNCONSTRAINED_TRACTABLE + CONSTRAINED
 
 
 def random_system_spec(rng, kind, dim=None, target_kind=None, metric_kind=None, constraint_kind=None,
-                       hausdorff=None, aux=None):
+                       hausdorff=None, aux=None, r2_range=(0.5, 4.0)):
     """Random system spec.  dims 1-5 (constrained: 2-5; softabs / dense Riemannian: 1-3)."""
     if dim is None:
         if kind in CONSTRAINED:
@@ -589,7 +615,7 @@ def random_system_spec(rng, kind, dim=None, target_kind=None, metric_kind=None, 
     if kind in TRACTABLE_KINDS:
         spec["metric"] = random_metric_spec(rng, dim, metric_kind)
     if kind in CONSTRAINED:
-        spec["constr"] = random_constraint_spec(rng, dim, constraint_kind)
+        spec["constr"] = random_constraint_spec(rng, dim, constraint_kind, r2_range=r2_range)
         if kind == "constrained":
             spec["hausdorff"] = bool(rng.integers(2)) if hausdorff is None else bool(hausdorff)
     if kind in RIEMANNIAN:
@@ -758,6 +784,19 @@ class SysW:
         rank = int(np.sum(s > 1e-12 * s[0]))
         return Vt[rank:].T
 
+    def retract_to_bundle(self, z):
+        """Nearby point of the cotangent bundle T*M (identity on T*M up to rounding): position by
+        Gauss-Newton along the constraint normals, momentum by the M^-1-orthogonal projection.
+        Independent of the implementation (dense linear algebra on the spec)."""
+        if not self.constrained:
+            return np.array(z, dtype=float)
+        d = self.dim
+        q = self.constr.retract(z[:d])
+        J = self.constr.jac(q)
+        Minv = np.linalg.inv(self.M)
+        p = z[d:] - J.T @ np.linalg.solve(J @ Minv @ J.T, J @ (Minv @ z[d:]))
+        return np.concatenate([q, p])
+
     def scale(self):
         """Rough frequency scale sqrt(lambda_max(M^-1 (Hess + I))) used to pick stable step sizes."""
         d = self.dim
@@ -863,8 +902,11 @@ def with_step_size(ispec, eps):
 
 
 def random_state_spec(rng, sysw: SysW, pos_scale=1.0, mom_scale=1.0, dir_=None):
-    """Random dyadic state; for constrained systems the position is moved onto the manifold and the
-    momentum projected with the system's own ``project_onto_cotangent_space``."""
+    """Random dyadic state; for constrained systems the position is moved onto the manifold (exactly where
+    possible, otherwise Gauss-Newton to 1e-15) at a point with a well conditioned constraint Jacobian and the
+    momentum is projected into the cotangent space with the system's own ``project_onto_cotangent_space``
+    (cross-checked against an independent dense projection, which is used instead on disagreement; the
+    outcome is counted in ``STATS``)."""
     d = sysw.dim
     pos = dy(rng, (d,), 16, -1.5 * pos_scale, 1.5 * pos_scale)
     mom = dy(rng, (d,), 16, -1.5 * mom_scale, 1.5 * mom_scale)
@@ -882,14 +924,27 @@ def random_state_spec(rng, sysw: SysW, pos_scale=1.0, mom_scale=1.0, dir_=None):
                 q = None
             if q is not None and np.all(np.isfinite(q)) and np.max(np.abs(sysw.constr.c(q))) < 1e-13:
                 J = sysw.constr.jac(q)
-                if np.linalg.svd(J, compute_uv=False)[-1] > 1e-2:
+                rn = np.linalg.norm(J, axis=1)
+                # well conditioned constraint Jacobian: rows not small and not nearly parallel
+                if np.all(rn >= 0.2) and np.linalg.svd(J / rn[:, None], compute_uv=False)[-1] > 0.25:
                     pos = q
                     break
             pos = dy(rng, (d,), 16, -1.5, 1.5)
         else:
             raise common.MachineryError(f"could not find a point on the manifold for {sysw.constr.spec}")
-        st = sysw.state(pos, mom)
-        mom = np.array(sysw.system.project_onto_cotangent_space(mom.copy(), st), dtype=float)
+        # independent projection (dense linear algebra on the spec), so that the precondition "state in the
+        # cotangent bundle" holds whatever the implementation does; the system's own projection is compared
+        J = sysw.constr.jac(pos)
+        Minv = np.linalg.inv(sysw.M)
+        mom_ind = mom - J.T @ np.linalg.solve(J @ Minv @ J.T, J @ (Minv @ mom))
+        try:
+            st = sysw.state(pos, mom)
+            mom_sys = np.array(sysw.system.project_onto_cotangent_space(mom.copy(), st), dtype=float)
+            agree = bool(np.max(np.abs(mom_sys - mom_ind)) <= 1e-12 * max(1.0, float(np.max(np.abs(mom)))))
+        except Exception:  # noqa: BLE001
+            agree = False
+        STATS["cotangent_projection_agrees" if agree else "cotangent_projection_DISAGREES"] += 1
+        mom = mom_sys if agree else mom_ind
     return {"pos": enc(pos), "mom": enc(mom), "dir": dir_}
 
 
@@ -1159,3 +1214,40 @@ def coefficient_failures(integ, system, exact=True):
         if not ok:
             out.append((name, f"coefficients of flow {'A' if name == 'sum_a' else 'B'} sum to {float(tot)!r} != 1: {co}"))
     return out
+
+
+# free coefficients published in Blanes, Casas & Sanz-Serna (2014), eqs (6.4), (6.7), (6.8)
+BCSS_FREE = {
+    "bcss2": [(3 - 3**0.5) / 6],
+    "bcss3": [0.11888010966548, 0.29619504261126],
+    "bcss4": [0.071353913450279725904, 0.191667800000000000000, 0.268548791161230105820],
+}
+
+
+def expected_coefficients(free):
+    """Full palindromic coefficient list (a_0, b_1, a_1, ..., b_1, a_0) of the S = len(free)+1 stage symmetric
+    composition, derived independently: the a's and the b's each sum to one (exact Fractions)."""
+    fr = [Fraction(*float(c).as_integer_ratio()) for c in free]
+    n = len(fr)
+    a, b = fr[0::2], fr[1::2]          # a_0, a_1, ... and b_1, b_2, ...
+    stages = n + 1                     # number of B sub-steps S; there are S + 1 A sub-steps
+    if stages % 2 == 1:                # S odd: middle element is b_{(S+1)/2}; free a's are all a_0..a_{(S-1)/2}
+        a_dep = Fraction(1, 2) - sum(a) if len(a) < (stages + 1) // 2 else None
+        half_a = a + ([a_dep] if a_dep is not None else [])
+        b_mid = 1 - 2 * sum(b)
+        half = []
+        for k in range(len(half_a)):
+            half.append(half_a[k])
+            if k < len(b):
+                half.append(b[k])
+        full = half + [b_mid] + half[::-1]
+    else:                              # S even: middle element is a_{S/2}
+        b_dep = Fraction(1, 2) - sum(b)
+        half_b = b + [b_dep]
+        a_mid = 1 - 2 * sum(a)
+        half = []
+        for k in range(len(half_b)):
+            half.append(a[k])
+            half.append(half_b[k])
+        full = half + [a_mid] + half[::-1]
+    return [float(c) for c in full], full
